@@ -9,7 +9,13 @@ upper / startswith / endswith / isdigit, and regular expressions of the standard
 (compile / search / match / fullmatch, group / start / end of a match).  Everything else - a library call, an attribute - raises AnalysisError: the
 helper is then outside what can be compared, and that is said (exit 2), never guessed.
 
-It is a model of a dozen lines of the repository on a finite table of strings (the table is the rule's), not an execution of the
+Later additions (DESIGN.md sections 36-37): `datetime` / `timedelta` values, methods of the modelled class (held by the `Stub` for `self`),
+module-level helpers and constants of the module under analysis, lambdas as closures, `map` / `filter` / `sorted(key=)`, the `operator` /
+`functools` / `itertools` helpers that were met in variants, `deque`, starred targets, `getattr`, `next()` of an iterator written in place.
+A `TypeError` counts as the program's only when both operands are plain values (`_plain`); anything that may be an artefact of the model
+is a refusal (AnalysisError).
+
+It is a model of a few dozen lines of the repository on a finite table of values (the table is the rule's), not an execution of the
 repository: nothing is imported, and a construct outside the class stops the evaluation.
 """
 import ast
@@ -56,10 +62,11 @@ DATE_METHODS = {"replace", "total_seconds", "date", "time", "timetuple", "isofor
 TYPES = {"tuple": tuple, "list": list, "str": str, "int": int, "float": float, "dict": dict, "set": set, "bool": bool, "datetime": _dt.datetime, "date": _dt.date,
          "timedelta": _dt.timedelta, "type(None)": type(None), "Number": (int, float, complex), "numbers.Number": (int, float, complex), "Real": (int, float),
          "numbers.Real": (int, float)}
-BUILTINS = {"float": float, "int": int, "str": str, "len": len, "bool": bool, "set": set, "divmod": divmod, "abs": abs, "round": round,
+BUILTINS = {"float": float, "int": int, "str": str, "len": len, "bool": bool, "set": set, "divmod": divmod, "abs": abs, "round": round, "format": format, "repr": repr,
             "datetime": _dt.datetime, "timedelta": _dt.timedelta, "list": list, "tuple": tuple, "dict": dict, "sorted": sorted,
             "any": any, "all": all, "min": min, "max": max, "sum": sum, "enumerate": enumerate, "zip": zip, "range": range, "reversed": reversed, "frozenset": frozenset}
-CONTAINER_METHODS = {list: {"append", "extend", "index", "count", "copy"}, set: {"add", "update", "copy", "union", "discard"},
+import collections as _coll
+CONTAINER_METHODS = {_coll.deque: {"append", "appendleft", "extend", "extendleft", "pop", "popleft"}, list: {"append", "extend", "index", "count", "copy", "insert", "pop", "reverse"}, set: {"add", "update", "copy", "union", "discard"},
                      dict: {"get", "items", "keys", "values", "setdefault", "update", "copy", "pop"}, tuple: {"index", "count"}, frozenset: {"union"}}
 
 
@@ -71,11 +78,47 @@ class Stub:
     def __repr__(self):
         return "<%s>" % self.name
 HIERARCHY = {"ValueError": {"ValueError"}, "TypeError": {"TypeError"}, "IndexError": {"IndexError"},
-             "Exception": {"ValueError", "TypeError", "IndexError", "KeyError", "AttributeError", "Exception", "OverflowError", "ZeroDivisionError", "re.error"},
-             "OverflowError": {"OverflowError"}, "ZeroDivisionError": {"ZeroDivisionError"}, "re.error": {"re.error"}, "KeyError": {"KeyError"}, "AttributeError": {"AttributeError"}}
+             "Exception": {"ValueError", "TypeError", "IndexError", "KeyError", "AttributeError", "Exception", "OverflowError", "ZeroDivisionError", "re.error", "StopIteration"},
+             "OverflowError": {"OverflowError"}, "ZeroDivisionError": {"ZeroDivisionError"}, "re.error": {"re.error"}, "StopIteration": {"StopIteration"}, "KeyError": {"KeyError"}, "AttributeError": {"AttributeError"}}
+
+
+class Closure:
+    """a lambda of the modelled program with the names it closed over"""
+    def __init__(self, node, env):
+        self.node, self.env = node, env
+
+
+class Model:
+    """a callable of the standard library modelled by the evaluator (operator.itemgetter(0), functools.partial(f, x), a bound str method ...)"""
+    def __init__(self, what, fn):
+        self.what, self.fn = what, fn
+
+    def __repr__(self):
+        return "<%s>" % self.what
 
 
 class Machine:
+    def apply(self, f, args, kw=None):
+        """call a callable value of the modelled program"""
+        kw = kw or {}
+        self.tick()
+        if isinstance(f, Closure):
+            a = f.node.args
+            if a.vararg or a.kwarg or a.kwonlyargs or kw or len(args) > len(a.args) or len(args) < len(a.args) - len(a.defaults):
+                raise AnalysisError("string machine: call of a lambda with these arguments")
+            scope = dict(f.env)
+            names = [x.arg for x in a.args]
+            for nm, d in zip(names[len(names) - len(a.defaults):], a.defaults):
+                scope[nm] = self.ev(d, f.env)
+            scope.update(zip(names, args))
+            return self.ev(f.node.body, scope)
+        if isinstance(f, Model):
+            return f.fn(*args, **kw)
+        if hasattr(f, "node") and hasattr(f, "params"):
+            self.budget -= 50
+            return call(f, *args, budget=self.budget, funcs=self.funcs, _raise=True, _globals=self.globs, **kw)
+        raise AnalysisError("string machine: call of %s" % type(f).__name__)
+
     def __init__(self, budget=20000, funcs=None, globs=None):
         self.budget = budget
         self.globs = globs or {}        # module-level names of the modelled module (stand-ins for imported modules such as os)
@@ -96,7 +139,100 @@ class Machine:
         if isinstance(n, ast.Name):
             if n.id in env:
                 return env[n.id]
+            if n.id in self.funcs and hasattr(self.funcs[n.id], "node"):
+                return self.funcs[n.id]             # a helper of the repository used as a value (map(helper, ...))
+            if n.id in BUILTINS:
+                def builtin(*a, f=BUILTINS[n.id], nm=n.id):      # a built-in used as a value (map(int, ...))
+                    try:
+                        return f(*a)
+                    except ValueError as e:
+                        raise PyRaise("ValueError", str(e))
+                    except TypeError as e:
+                        if all(_plain(x) for x in a):
+                            raise PyRaise("TypeError", str(e))
+                        raise AnalysisError("string machine: %s(...) (%s)" % (nm, e))
+                return Model(n.id, builtin)
             raise AnalysisError("string machine: name %s is not bound" % n.id)
+        if isinstance(n, ast.Lambda):
+            return Closure(n, dict(env))
+        BARE = {"partial": "functools", "reduce": "functools", "starmap": "itertools", "chain": "itertools", "itemgetter": "operator", "methodcaller": "operator"}
+        if isinstance(n, ast.Call) and not n.keywords and (
+                (isinstance(n.func, ast.Attribute) and isinstance(n.func.value, ast.Name) and n.func.value.id in ("operator", "functools", "itertools") and n.func.value.id not in env)
+                or (isinstance(n.func, ast.Name) and n.func.id in BARE and n.func.id not in env and n.func.id not in self.funcs)):
+            lib, what = (n.func.value.id, n.func.attr) if isinstance(n.func, ast.Attribute) else (BARE[n.func.id], n.func.id)
+            args = [self.ev(a, env) for a in n.args]
+            if (lib, what) == ("operator", "itemgetter") and len(args) == 1:
+                return Model("itemgetter(%r)" % (args[0],), lambda v, k=args[0]: v[k])
+            if (lib, what) == ("operator", "methodcaller") and args and isinstance(args[0], str) and args[0] in STR_METHODS:
+                def mc(v, name=args[0], rest=tuple(args[1:])):
+                    if not isinstance(v, str):
+                        raise AnalysisError("string machine: methodcaller(%r) on %s" % (name, type(v).__name__))
+                    r = getattr(v, name)(*rest)
+                    return tuple(r) if name in ("partition", "rpartition") else r
+                return Model("methodcaller(%r)" % args[0], mc)
+            if (lib, what) == ("operator", "add") and len(args) == 2:
+                return args[0] + args[1]
+            if (lib, what) == ("functools", "partial") and args:
+                return Model("partial", lambda *more, f=args[0], first=tuple(args[1:]): self.apply(f, list(first) + list(more)))
+            if (lib, what) == ("functools", "reduce") and len(args) in (2, 3):
+                seq = list(args[1])
+                acc = args[2] if len(args) == 3 else seq.pop(0)
+                for x in seq:
+                    acc = self.apply(args[0], [acc, x])
+                return acc
+            if (lib, what) == ("itertools", "starmap") and len(args) == 2:
+                return tuple(self.apply(args[0], list(x)) for x in args[1])
+            if (lib, what) == ("itertools", "chain") :
+                return tuple(x for a in args for x in a)
+            raise AnalysisError("string machine: %s.%s" % (lib, what))
+        if isinstance(n, ast.Attribute) and isinstance(n.value, ast.Name) and n.value.id == "operator" and "operator" not in env and n.attr in ("add", "mul", "sub"):
+            import operator as _op
+            return Model("operator." + n.attr, getattr(_op, n.attr))
+        if isinstance(n, ast.Call) and isinstance(n.func, ast.Name) and n.func.id == "getattr" and "getattr" not in env and not n.keywords and len(n.args) in (2, 3):
+            base = self.ev(n.args[0], env)
+            name = self.ev(n.args[1], env)
+            if not isinstance(name, str):
+                raise AnalysisError("string machine: getattr with a name that is not a string")
+            if isinstance(base, Stub):
+                if name in base.attrs:
+                    return base.attrs[name]
+                if len(n.args) == 3:
+                    raise AnalysisError("string machine: getattr(%s, %r, default): whether the attribute exists is not modelled" % (base, name))
+                raise AnalysisError("string machine: attribute %s of %s" % (name, base))
+            if isinstance(base, (_dt.datetime, _dt.date, _dt.timedelta)) and name in DATE_ATTRS:
+                return getattr(base, name)
+            raise AnalysisError("string machine: getattr(%s, %r)" % (type(base).__name__, name))
+        if isinstance(n, ast.Call) and isinstance(n.func, ast.Name) and n.func.id == "next" and "next" not in env and not n.keywords and len(n.args) in (1, 2) \
+                and isinstance(n.args[0], (ast.GeneratorExp, ast.Call)):
+            # the first element of a FRESH iterator (a generator expression / the result of a call written in place): nothing else can have consumed it
+            seq = self.ev(n.args[0], env)
+            if not isinstance(seq, tuple):
+                raise AnalysisError("string machine: next() of %s" % type(seq).__name__)
+            if seq:
+                return seq[0]
+            if len(n.args) == 2:
+                return self.ev(n.args[1], env)
+            raise PyRaise("StopIteration", "")
+        if isinstance(n, ast.Call) and isinstance(n.func, ast.Name) and n.func.id in ("map", "filter") and n.func.id not in env and not n.keywords and len(n.args) >= 2:
+            f = self.ev(n.args[0], env)
+            seqs = [self.ev(a, env) for a in n.args[1:]]
+            if n.func.id == "map":
+                return tuple(self.apply(f, list(xs)) for xs in zip(*seqs))
+            if len(seqs) != 1:
+                raise AnalysisError("string machine: filter with %d sequences" % len(seqs))
+            return tuple(x for x in seqs[0] if (x if f is None else self.apply(f, [x])))
+        if isinstance(n, ast.Call) and isinstance(n.func, ast.Name) and n.func.id in ("sorted", "min", "max") and n.func.id not in env \
+                and any(k.arg == "key" for k in n.keywords) and all(k.arg in ("key", "reverse", "default") for k in n.keywords):
+            kw = {k.arg: self.ev(k.value, env) for k in n.keywords}
+            keyf = kw.pop("key")
+            args = [self.ev(a, env) for a in n.args]
+            return BUILTINS[n.func.id](*args, key=lambda v: self.apply(keyf, [v]), **kw)
+        if isinstance(n, ast.Call) and isinstance(n.func, ast.Name) and isinstance(env.get(n.func.id), (Closure, Model)) :
+            return self.apply(env[n.func.id], [self.ev(a, env) for a in n.args], {k.arg: self.ev(k.value, env) for k in n.keywords if k.arg})
+        if isinstance(n, ast.Call) and isinstance(n.func, ast.Name) and n.func.id in env and hasattr(env[n.func.id], "node") and hasattr(env[n.func.id], "params"):
+            return self.apply(env[n.func.id], [self.ev(a, env) for a in n.args], {k.arg: self.ev(k.value, env) for k in n.keywords if k.arg})
+        if isinstance(n, ast.Call) and isinstance(n.func, (ast.Lambda, ast.Call)):
+            return self.apply(self.ev(n.func, env), [self.ev(a, env) for a in n.args], {k.arg: self.ev(k.value, env) for k in n.keywords if k.arg})
         if isinstance(n, ast.Tuple):
             return tuple(self.ev(e, env) for e in n.elts)
         if isinstance(n, ast.List):
@@ -147,6 +283,12 @@ class Machine:
                 return base.attrs[n.attr]
             if isinstance(base, PyRaise) and n.attr == "args":
                 return (str(base),)
+            if isinstance(base, str) and n.attr in STR_METHODS:
+                def bound(*a, s_=base, name=n.attr):
+                    a = [list(x) if name == "join" else x for x in a]
+                    r = getattr(s_, name)(*a)
+                    return tuple(r) if name in ("partition", "rpartition") else r
+                return Model("str.%s" % n.attr, bound)
             if isinstance(base, (_dt.datetime, _dt.date, _dt.timedelta)) and n.attr in DATE_ATTRS:
                 return getattr(base, n.attr)
             if isinstance(n.value, ast.Name) and n.value.id in ("datetime", "timedelta") and n.value.id not in env and n.attr in ("min", "max"):
@@ -377,6 +519,10 @@ class Machine:
         if isinstance(n, ast.Call) and not n.keywords and len(n.args) <= 1 and isinstance(n.func, (ast.Name, ast.Attribute)) \
                 and (n.func.id if isinstance(n.func, ast.Name) else n.func.attr) == "OrderedDict" and "OrderedDict" not in env:
             return dict(self.ev(n.args[0], env)) if n.args else {}          # (insertion order is the order of a dict)
+        if isinstance(n, ast.Call) and not n.keywords and len(n.args) <= 1 and isinstance(n.func, (ast.Name, ast.Attribute)) \
+                and (n.func.id if isinstance(n.func, ast.Name) else n.func.attr) == "deque" and "deque" not in env:
+            import collections as _c2
+            return _c2.deque(self.ev(n.args[0], env)) if n.args else _c2.deque()
         if isinstance(n, ast.Call) and not n.keywords and len(n.args) <= 1 and "Counter" not in env and \
                 ((isinstance(n.func, ast.Name) and n.func.id == "Counter") or (isinstance(n.func, ast.Attribute) and n.func.attr == "Counter"
                                                                                and isinstance(n.func.value, ast.Name) and n.func.value.id == "collections")):
@@ -477,7 +623,21 @@ class Machine:
         if isinstance(t, ast.Name):
             env[t.id] = v
         elif isinstance(t, (ast.Tuple, ast.List)):
-            if not isinstance(v, (tuple, list)) or len(v) != len(t.elts):
+            if not isinstance(v, (tuple, list)):
+                raise PyRaise("TypeError", "cannot unpack")
+            stars = [i for i, e in enumerate(t.elts) if isinstance(e, ast.Starred)]
+            if len(stars) == 1:
+                i = stars[0]
+                after = len(t.elts) - i - 1
+                if len(v) < len(t.elts) - 1:
+                    raise PyRaise("ValueError", "unpack")
+                for a, b in zip(t.elts[:i], v[:i]):
+                    self.bind(a, b, env)
+                self.bind(t.elts[i].value, list(v[i:len(v) - after]), env)
+                for a, b in zip(t.elts[i + 1:], v[len(v) - after:] if after else []):
+                    self.bind(a, b, env)
+                return
+            if stars or len(v) != len(t.elts):
                 raise PyRaise("ValueError", "unpack")
             for a, b in zip(t.elts, v):
                 self.bind(a, b, env)
